@@ -54,12 +54,17 @@ def result_summary(res, want_skel=False):
             elif want_skel:
                 r["skel"] = skel_hash(res["tree"], res.get("root_str", ""))
             r["text"] = hashlib.sha1(res.get("root_str", "").encode()).hexdigest()[:12]
+        elif "leaves" in res:      # raw nom entry point
+            r["fp"] = hashlib.sha1(json.dumps([res["leaves"], res.get("rest_off")]).encode()).hexdigest()[:16]
         else:
             r["text"] = hashlib.sha1(res.get("text", "").encode()).hexdigest()[:12]
             r["fp"] = hashlib.sha1(json.dumps(res.get("origins", [])).encode()).hexdigest()[:12]
         r["defs"] = pp.defs_view(res.get("defs", []))
     elif oc == "err":
-        r["err"] = pp.err_to_spec(res["err"])
+        if res["err"].get("kind") == "Raw":
+            r["err"] = ["Raw", res["err"].get("pos") if res["err"].get("pos") is not None else -1]
+        else:
+            r["err"] = pp.err_to_spec(res["err"])
     return r
 
 
